@@ -327,9 +327,13 @@ namespace GeographicLib {
 
     // Correct the UTM northing and hemisphere if necessary
     if (utmp) {
-      if (northp && iy < minutmNrow_) {
+      // Test y < 0 explicitly because y / tile_ underflows to -0 for denormal y
+      if (northp && (iy < minutmNrow_ || y < 0)) {
         northp = false;
         y += utmNshift_;
+        // For tiny negative y, the sum rounds up to the equator; retain S
+        // hemisphere
+        if (y >= maxutmSrow_ * tile_) y = maxutmSrow_ * tile_ - eps;
       } else if (!northp && iy >= maxutmSrow_) {
         if (y == maxutmSrow_ * tile_)
           // If on equator retain S hemisphere
